@@ -217,6 +217,27 @@ impl Prop for C05 {
                 replicas[i].role = format!("env-{}", replicas[i].role);
             }
         }
+        if !replicas.iter().any(|r| r.role.contains("restarting") || r.role.contains("lazy")) {
+            // C05's twins must receive identical deliveries: the park point is part of one twin's plan only, which is
+            // fine for the reader (same bytes, same chunks) but the steps would compare unequal - so the plan of
+            // *every* twin gets the same shape and only the first one actually parks (it is the only one that is
+            // followed by a replica while it is stopped)
+            if rng.pct(12) {
+                let k = rng.below(steps.len());
+                let len = docs[k].ser().len();
+                let n = rng.range(5, 60);
+                let cuts: Vec<usize> = (1..len).filter(|i| i % n == 0).collect();
+                let at = rng.below(cuts.len() + 2);
+                for r in replicas.iter_mut() {
+                    if r.steps[k].plan.slice || r.steps[k].plan.cuts.is_empty() {
+                        r.steps[k].plan = Plan::whole();
+                        r.steps[k].plan.cuts = cuts.clone();
+                    }
+                    r.steps[k].plan.park_at = Some(at.min(r.steps[k].plan.cuts.len() + 1));
+                }
+                replicas[0].role = format!("parking-{}", replicas[0].role);
+            }
+        }
         let derive = rng.pick(&["Serialize, Deserialize", "", "Debug", "Debug, Clone, Debug", "Serialize, Deserialize, Debug, Serialize", "B, A, C, A, B", "serde::Serialize, serde::Deserialize", "some::very::long::qualified::path::to::a::derive::macro::that::goes::on::and::on::and::on::for::more::than::a::hundred::columns::Trait"]).to_string();
         Scenario::Session(Session { alts: vec![None; docs.len()], docs, replicas, opts: all_opts(&derive) })
     }
